@@ -13,6 +13,23 @@ package rules
 // a case, or a server that stops dispatching, fails them. `x &^ K` is read as
 // the mask ^K, so an opcode "derived by clearing the known flags" is judged on
 // the bits it really keeps.
+//
+// Shapes of a classification that are read (all judged on un-shifted header
+// bits): switch / tagless switch / if-chain on `Flags & M`; the same on the
+// opcode NUMBER `(Flags&M)>>k` against `Op*>>k`; a lookup `T[(Flags&M)>>k]` or
+// `T[Flags&M]` in a read-only table of functions (array, slice, map composite
+// literal in a never-assigned package variable or single-assignment local) whose
+// non-nil rows are the cases — row i stands for the value i<<k, the mask loses
+// its bits below k, an index that can exceed the table is a violation, and the
+// looked-up function must be the thing that is called; the masked value may come
+// from a one-line accessor (packet.Opcode()) or a single-assignment local.
+//
+// Completeness before verdict: a server type (or DefendName / HandleRedirect)
+// that reaches no readable classification is a violation only when the opcode
+// bits of Header.Flags are not used at all under it; when they flow into code the
+// rule does not read (a table built at run time, a module function given the
+// flags, an unmasked switch …) the obligations are discharged as NOT DECIDED
+// with a note (r2UnreadFlagUses).
 
 import (
 	"fmt"
@@ -50,6 +67,10 @@ type c18Cmp struct {
 	val    uint64
 	obj    *types.Const // when the expression is an identifier of a declared constant
 	clause *ast.CaseClause
+	// table dispatch: the module functions the table entry holds (method expressions,
+	// function names, or the calls inside a function literal)
+	entry    []*types.Func
+	hasEntry bool
 }
 
 type c18MaskSite struct {
@@ -65,6 +86,14 @@ type c18MaskSite struct {
 	guard   []ast.Stmt // statements executed when an `==` comparison holds (if body / tagless case body)
 	guarded bool
 	isFlags bool // x is NBTNSHeader.Flags
+	// shift: the classification is made on (x&M)>>shift; mask and the compared values are
+	// stored un-shifted (the value a case stands for is v<<shift, the mask loses its bits
+	// below the shift), so every later judgement is made on header bits
+	shift uint
+	// table dispatch `T[(x&M)>>k]`: positively observed defects of the table itself
+	// (index can exceed the table) and reasons why the table could not be read completely
+	tableBad []string
+	unread   string
 }
 
 func c18Unparen(e ast.Expr) ast.Expr {
@@ -174,6 +203,14 @@ func c18Masked(pk *packages.Package, defs map[types.Object]ast.Expr, e ast.Expr,
 		}
 		return nil, 0, false
 	}
+	// packet.Opcode() / opcodeOf(packet): an accessor of the same package whose body is the
+	// single statement `return <masked expression>`
+	if ce, isCall := e.(*ast.CallExpr); isCall && depth < 4 {
+		if ret := c18AccessorResult(pk, ce); ret != nil {
+			return c18Masked(pk, defs, ret, depth+1)
+		}
+		return nil, 0, false
+	}
 	be, isB := e.(*ast.BinaryExpr)
 	if isB && be.Op == token.AND_NOT {
 		// x &^ K keeps the bits of x outside K: the mask is ^K over the width of x
@@ -209,6 +246,369 @@ func c18Masked(pk *packages.Package, defs map[types.Object]ast.Expr, e ast.Expr,
 	return nil, 0, false
 }
 
+var c18DeclCache = map[*packages.Package]map[types.Object]*ast.FuncDecl{}
+
+// c18AccessorResult: the call is to a function or method declared in pk whose body is one
+// `return expr` statement; returns expr.
+func c18AccessorResult(pk *packages.Package, ce *ast.CallExpr) ast.Expr {
+	decls := c18DeclCache[pk]
+	if decls == nil {
+		decls = map[types.Object]*ast.FuncDecl{}
+		for _, f := range pk.Syntax {
+			for _, d := range f.Decls {
+				if fd, ok := d.(*ast.FuncDecl); ok && fd.Body != nil {
+					if o := pk.TypesInfo.Defs[fd.Name]; o != nil {
+						decls[o] = fd
+					}
+				}
+			}
+		}
+		c18DeclCache[pk] = decls
+	}
+	var fo types.Object
+	switch fx := c18Unparen(ce.Fun).(type) {
+	case *ast.SelectorExpr:
+		if sel := pk.TypesInfo.Selections[fx]; sel != nil {
+			fo = sel.Obj()
+		} else {
+			fo = pk.TypesInfo.Uses[fx.Sel]
+		}
+	case *ast.Ident:
+		fo = pk.TypesInfo.Uses[fx]
+	}
+	fd := decls[fo]
+	if fd == nil || len(fd.Body.List) != 1 {
+		return nil
+	}
+	rs, ok := fd.Body.List[0].(*ast.ReturnStmt)
+	if !ok || len(rs.Results) != 1 {
+		return nil
+	}
+	return rs.Results[0]
+}
+
+// c18MaskedShift recognises `(x & M) >> k` (k constant, possibly 0 = no shift), looking
+// through parentheses, integer conversions and single-assignment locals.
+func c18MaskedShift(pk *packages.Package, defs map[types.Object]ast.Expr, e ast.Expr, depth int) (x ast.Expr, m uint64, shift uint, ok bool) {
+	e = c18Unparen(e)
+	if depth > 6 {
+		return nil, 0, 0, false
+	}
+	switch v := e.(type) {
+	case *ast.Ident:
+		if o := pk.TypesInfo.Uses[v]; o != nil {
+			if d, has := defs[o]; has {
+				return c18MaskedShift(pk, defs, d, depth+1)
+			}
+		}
+		return nil, 0, 0, false
+	case *ast.CallExpr: // conversion int(…), uint8(…)
+		if len(v.Args) == 1 {
+			if tv, isT := pk.TypesInfo.Types[v.Fun]; isT && tv.IsType() {
+				if b, isB := tv.Type.Underlying().(*types.Basic); isB && b.Info()&types.IsInteger != 0 {
+					return c18MaskedShift(pk, defs, v.Args[0], depth+1)
+				}
+				return nil, 0, 0, false
+			}
+		}
+		if ret := c18AccessorResult(pk, v); ret != nil {
+			return c18MaskedShift(pk, defs, ret, depth+1)
+		}
+		return nil, 0, 0, false
+	case *ast.BinaryExpr:
+		if v.Op == token.SHR {
+			kv, kc := c18ConstVal(pk.TypesInfo, v.Y)
+			if !kc || kv > 63 {
+				return nil, 0, 0, false
+			}
+			x, m, sh, ok := c18MaskedShift(pk, defs, v.X, depth+1)
+			if !ok {
+				return nil, 0, 0, false
+			}
+			return x, m, sh + uint(kv), true
+		}
+	}
+	x, m, ok = c18Masked(pk, defs, e, 0)
+	return x, m, 0, ok
+}
+
+// c18PkgVarInits maps the package-level variables that are initialised by one expression
+// and never assigned, indexed-assigned or address-taken anywhere in the package to that
+// expression (read-only tables).
+func c18PkgVarInits(pk *packages.Package) map[types.Object]ast.Expr {
+	inits := map[types.Object]ast.Expr{}
+	for _, f := range pk.Syntax {
+		for _, d := range f.Decls {
+			gd, ok := d.(*ast.GenDecl)
+			if !ok || gd.Tok != token.VAR {
+				continue
+			}
+			for _, sp := range gd.Specs {
+				vs, ok := sp.(*ast.ValueSpec)
+				if !ok || len(vs.Names) != len(vs.Values) {
+					continue
+				}
+				for i, n := range vs.Names {
+					if o := pk.TypesInfo.Defs[n]; o != nil {
+						inits[o] = vs.Values[i]
+					}
+				}
+			}
+		}
+	}
+	rootObj := func(e ast.Expr) types.Object {
+		for {
+			switch x := c18Unparen(e).(type) {
+			case *ast.IndexExpr:
+				e = x.X
+			case *ast.SelectorExpr:
+				if _, isPkgVar := pk.TypesInfo.Uses[x.Sel].(*types.Var); isPkgVar && pk.TypesInfo.Selections[x] == nil {
+					return pk.TypesInfo.Uses[x.Sel]
+				}
+				e = x.X
+			case *ast.StarExpr:
+				e = x.X
+			case *ast.Ident:
+				return pk.TypesInfo.Uses[x]
+			default:
+				return nil
+			}
+		}
+	}
+	for _, f := range pk.Syntax {
+		ast.Inspect(f, func(n ast.Node) bool {
+			switch x := n.(type) {
+			case *ast.AssignStmt:
+				for _, l := range x.Lhs {
+					if o := rootObj(l); o != nil {
+						delete(inits, o)
+					}
+				}
+			case *ast.IncDecStmt:
+				if o := rootObj(x.X); o != nil {
+					delete(inits, o)
+				}
+			case *ast.UnaryExpr:
+				if x.Op == token.AND {
+					if o := rootObj(x.X); o != nil {
+						delete(inits, o)
+					}
+				}
+			case *ast.RangeStmt:
+				for _, l := range []ast.Expr{x.Key, x.Value} {
+					if l != nil && x.Tok == token.ASSIGN {
+						if o := rootObj(l); o != nil {
+							delete(inits, o)
+						}
+					}
+				}
+			}
+			return true
+		})
+	}
+	return inits
+}
+
+// c18FuncsOfExpr: the module functions a table entry stands for: a function or method
+// name, a method expression (*T).m / T.m, a method value x.m, or — for a function literal —
+// the module functions its body calls.
+func (k *c18) c18FuncsOfExpr(pk *packages.Package, e ast.Expr) (fs []*types.Func, isNil, ok bool) {
+	e = c18Unparen(e)
+	switch x := e.(type) {
+	case *ast.Ident:
+		if x.Name == "nil" {
+			if _, isNilObj := pk.TypesInfo.Uses[x].(*types.Nil); isNilObj {
+				return nil, true, true
+			}
+		}
+		if f, isF := pk.TypesInfo.Uses[x].(*types.Func); isF {
+			return []*types.Func{f}, false, true
+		}
+	case *ast.SelectorExpr:
+		if sel := pk.TypesInfo.Selections[x]; sel != nil {
+			if f, isF := sel.Obj().(*types.Func); isF {
+				return []*types.Func{f}, false, true
+			}
+		} else if f, isF := pk.TypesInfo.Uses[x.Sel].(*types.Func); isF {
+			return []*types.Func{f}, false, true
+		}
+	case *ast.FuncLit:
+		var out []*types.Func
+		ast.Inspect(x.Body, func(n ast.Node) bool {
+			ce, isCall := n.(*ast.CallExpr)
+			if !isCall {
+				return true
+			}
+			var f *types.Func
+			switch fx := c18Unparen(ce.Fun).(type) {
+			case *ast.SelectorExpr:
+				if sel := pk.TypesInfo.Selections[fx]; sel != nil {
+					f, _ = sel.Obj().(*types.Func)
+				} else {
+					f, _ = pk.TypesInfo.Uses[fx.Sel].(*types.Func)
+				}
+			case *ast.Ident:
+				f, _ = pk.TypesInfo.Uses[fx].(*types.Func)
+			}
+			if f != nil && k.pg.ObjInModule(f) {
+				out = append(out, f)
+			}
+			return true
+		})
+		return out, false, true
+	}
+	return nil, false, false
+}
+
+// tableSite reads `T[(x&M)>>k]` where T is a read-only table of functions (array, slice
+// or map composite literal held in a never-assigned package variable or single-assignment
+// local). Each non-nil entry i becomes a compared value i<<k with the functions it holds.
+func (k *c18) tableSite(pk *packages.Package, defs, inits map[types.Object]ast.Expr, ix *ast.IndexExpr, parent ast.Node, fbody *ast.BlockStmt, fname string) *c18MaskSite {
+	info := pk.TypesInfo
+	x, m, shift, ok := c18MaskedShift(pk, defs, ix.Index, 0)
+	if !ok {
+		return nil
+	}
+	// element type must be a function
+	var elemT types.Type
+	arrLen := int64(-1)
+	isMap := false
+	switch t := info.TypeOf(ix.X).Underlying().(type) {
+	case *types.Array:
+		elemT, arrLen = t.Elem(), t.Len()
+	case *types.Slice:
+		elemT = t.Elem()
+	case *types.Map:
+		elemT, isMap = t.Elem(), true
+	case *types.Pointer:
+		if a, isA := t.Elem().Underlying().(*types.Array); isA {
+			elemT, arrLen = a.Elem(), a.Len()
+		}
+	}
+	if elemT == nil {
+		return nil
+	}
+	if _, isFn := elemT.Underlying().(*types.Signature); !isFn {
+		return nil
+	}
+	low := uint64(0)
+	if shift > 0 {
+		low = (uint64(1) << shift) - 1
+	}
+	site := &c18MaskSite{pk: pk, fn: fname, kind: "table", pos: ix.Pos(), x: x, mask: m &^ low, maskOK: true, shift: shift}
+	// the table literal
+	var lit *ast.CompositeLit
+	switch tx := c18Unparen(ix.X).(type) {
+	case *ast.Ident:
+		if o := info.Uses[tx]; o != nil {
+			if d, has := inits[o]; has {
+				lit, _ = c18Unparen(d).(*ast.CompositeLit)
+			} else if d, has := defs[o]; has {
+				lit, _ = c18Unparen(d).(*ast.CompositeLit)
+			}
+		}
+	case *ast.CompositeLit:
+		lit = tx
+	}
+	if lit == nil {
+		site.unread = "the handler table " + types.ExprString(ix.X) + " is not a composite literal held in a never-reassigned variable (it is built or modified at run time)"
+		return site
+	}
+	next := uint64(0)
+	maxIdx := uint64(0)
+	for _, el := range lit.Elts {
+		var keyExpr ast.Expr
+		val := el
+		idx := next
+		if kv, isKV := el.(*ast.KeyValueExpr); isKV {
+			kc, isC := c18ConstVal(info, kv.Key)
+			if !isC {
+				site.unread = "the handler table has a non-constant key " + types.ExprString(kv.Key)
+				return site
+			}
+			keyExpr, val, idx = kv.Key, kv.Value, kc
+		} else if isMap {
+			site.unread = "the handler table (map) has an entry without a key"
+			return site
+		}
+		next = idx + 1
+		if idx > maxIdx {
+			maxIdx = idx
+		}
+		fs, isNil, okF := k.c18FuncsOfExpr(pk, val)
+		if !okF {
+			site.unread = "entry " + types.ExprString(val) + " of the handler table is not a function name, method expression, method value or function literal"
+			return site
+		}
+		if isNil {
+			continue
+		}
+		if keyExpr == nil {
+			keyExpr = val
+		}
+		site.cmps = append(site.cmps, c18Cmp{expr: keyExpr, val: idx << shift, obj: c18ConstObj(info, keyExpr), entry: fs, hasEntry: true})
+	}
+	if !isMap {
+		n := arrLen
+		if n < 0 {
+			n = int64(maxIdx) + 1
+			if len(lit.Elts) == 0 {
+				n = 0
+			}
+		}
+		if top := site.mask >> shift; int64(top) >= n {
+			site.tableBad = append(site.tableBad, fmt.Sprintf("the index (x&0x%04X)>>%d can be as large as %d but the table has %d entries: some opcodes make the lookup panic", m, shift, top, n))
+		}
+	}
+	// the looked-up function must be the thing that is called
+	called := false
+	switch par := parent.(type) {
+	case *ast.CallExpr:
+		called = c18Unparen(par.Fun) == ast.Expr(ix)
+	case *ast.AssignStmt:
+		for i, r := range par.Rhs {
+			if c18Unparen(r) != ast.Expr(ix) || i >= len(par.Lhs) {
+				continue
+			}
+			id, isId := par.Lhs[i].(*ast.Ident)
+			if !isId {
+				continue
+			}
+			o := info.Defs[id]
+			if o == nil {
+				o = info.Uses[id]
+			}
+			ast.Inspect(fbody, func(n ast.Node) bool {
+				if ce, isCall := n.(*ast.CallExpr); isCall {
+					if fid, isFid := c18Unparen(ce.Fun).(*ast.Ident); isFid && info.Uses[fid] == o && o != nil {
+						called = true
+					}
+				}
+				return true
+			})
+		}
+	case *ast.ValueSpec:
+		for i, r := range par.Values {
+			if c18Unparen(r) != ast.Expr(ix) || i >= len(par.Names) {
+				continue
+			}
+			o := info.Defs[par.Names[i]]
+			ast.Inspect(fbody, func(n ast.Node) bool {
+				if ce, isCall := n.(*ast.CallExpr); isCall {
+					if fid, isFid := c18Unparen(ce.Fun).(*ast.Ident); isFid && info.Uses[fid] == o && o != nil {
+						called = true
+					}
+				}
+				return true
+			})
+		}
+	}
+	if !called {
+		site.unread = "the function looked up in the handler table is not called in " + fname + " (it is returned, stored or passed on)"
+	}
+	return site
+}
+
 func c18FuncName(p interface{ relName(string) string }, pk *packages.Package, fd *ast.FuncDecl) string {
 	if o, ok := pk.TypesInfo.Defs[fd.Name].(*types.Func); ok {
 		return p.relName(o.FullName())
@@ -225,6 +625,7 @@ func (k *c18) relName(s string) string {
 func (k *c18) maskSites(pk *packages.Package) []*c18MaskSite {
 	info := pk.TypesInfo
 	defs := c18LocalDefs(pk)
+	inits := c18PkgVarInits(pk)
 	var out []*c18MaskSite
 	for _, f := range pk.Syntax {
 		for _, d := range f.Decls {
@@ -256,10 +657,18 @@ func (k *c18) maskSites(pk *packages.Package) []*c18MaskSite {
 							}
 						}
 					}
+					shift := uint(0)
+					if !ok {
+						// switch (x & M) >> k { case OpX >> k: … }: judged on the un-shifted bits
+						x, m, shift, ok = c18MaskedShift(pk, defs, s.Tag, 0)
+						if ok && shift > 0 {
+							m &^= (uint64(1) << shift) - 1
+						}
+					}
 					if !ok {
 						return true
 					}
-					site := &c18MaskSite{pk: pk, fn: fname, kind: "switch", pos: s.Pos(), x: x, mask: m, maskOK: true, sw: s}
+					site := &c18MaskSite{pk: pk, fn: fname, kind: "switch", pos: s.Pos(), x: x, mask: m, maskOK: true, sw: s, shift: shift}
 					for _, st := range s.Body.List {
 						cc, ok := st.(*ast.CaseClause)
 						if !ok {
@@ -270,10 +679,21 @@ func (k *c18) maskSites(pk *packages.Package) []*c18MaskSite {
 							if !isC {
 								continue
 							}
-							site.cmps = append(site.cmps, c18Cmp{expr: e, val: v, obj: c18ConstObj(info, e), clause: cc})
+							site.cmps = append(site.cmps, c18Cmp{expr: e, val: v << shift, obj: c18ConstObj(info, e), clause: cc})
 						}
 					}
 					out = append(out, site)
+				case *ast.IndexExpr:
+					var parent ast.Node
+					for i := len(stack) - 2; i >= 0; i-- {
+						if _, isP := stack[i].(*ast.ParenExpr); !isP {
+							parent = stack[i]
+							break
+						}
+					}
+					if site := k.tableSite(pk, defs, inits, s, parent, fd.Body, fname); site != nil {
+						out = append(out, site)
+					}
 				case *ast.BinaryExpr:
 					if s.Op != token.EQL && s.Op != token.NEQ {
 						return true
@@ -414,6 +834,31 @@ func (k *c18) r2() {
 	}
 	k.r.Extra["R2_masked_sites_in_nbtns"] = len(all)
 	k.r.Extra["R2_opcode_classification_sites"] = len(sites)
+	// table keys and shifted case values (`OpNameQuery >> 11`) are not identifiers: the Op*
+	// constant they stand for is the one with the same un-shifted value
+	for _, s := range sites {
+		if s.kind != "table" && s.shift == 0 {
+			continue
+		}
+		for i := range s.cmps {
+			if s.cmps[i].obj != nil && opFamily[s.cmps[i].obj] {
+				continue
+			}
+			var match *types.Const
+			n := 0
+			for c := range opFamily {
+				if v, exact := constant.Uint64Val(constant.ToInt(c.Val())); exact && v == s.cmps[i].val {
+					match = c
+					n++
+				}
+			}
+			if n == 1 {
+				s.cmps[i].obj = match
+			}
+		}
+	}
+	// functions in which an opcode classification exists but could not be read completely
+	unreadFns := map[string]string{}
 
 	// OR of every Op* constant some dispatch switch routes on
 	var need uint64
@@ -433,9 +878,16 @@ func (k *c18) r2() {
 		}
 		construct := fmt.Sprintf("%s: %s on Header.Flags&M against {%s}", s.fn, s.kind, strings.Join(names, ","))
 		pos := k.p.Rel(s.pos)
+		if s.unread != "" {
+			unreadFns[s.fn] = s.unread
+			k.r.OK("R2-mask", construct, pos, "NOT DECIDED — "+s.unread)
+			k.r.Note("C18 R2: opcode classification in %s NOT DECIDED — %s", s.fn, s.unread)
+			continue
+		}
 		masks[s.mask] = append(masks[s.mask], s.fn)
 		k.c.guard("R2-mask", construct, pos, func() {
 			var bad []string
+			bad = append(bad, s.tableBad...)
 			for _, c := range s.cmps {
 				if c.val&^s.mask != 0 {
 					verb := "can never be taken"
@@ -519,7 +971,10 @@ func (k *c18) r2() {
 	byFn := map[string]*disp{}
 	var fnOrder []string
 	for _, s := range sites {
-		if s.sw == nil && !s.guarded {
+		if s.unread != "" {
+			continue
+		}
+		if s.sw == nil && !s.guarded && s.kind != "table" {
 			continue
 		}
 		d := byFn[s.fn]
@@ -533,6 +988,8 @@ func (k *c18) r2() {
 				continue
 			}
 			switch {
+			case c.hasEntry:
+				d.handlers[c.obj] = append(d.handlers[c.obj], c.entry...)
 			case s.sw != nil && c.clause != nil:
 				d.handlers[c.obj] = append(d.handlers[c.obj], callsIn(c.clause.Body)...)
 			case s.guarded:
@@ -564,7 +1021,28 @@ func (k *c18) r2() {
 	}
 	siteFns := map[string]bool{}
 	for _, s := range sites {
-		siteFns[s.fn] = true
+		if s.unread == "" {
+			siteFns[s.fn] = true
+		}
+	}
+	// Completeness before verdict: where do the opcode bits of Header.Flags go that no
+	// recognised classification reads? (passed to a module function, kept in a variable,
+	// indexed into something that is not a read-only table, switched on unmasked …)
+	for fn, why := range k.r2UnreadFlagUses(pk, defs, flagsVar, sites) {
+		if _, has := unreadFns[fn]; !has {
+			unreadFns[fn] = why
+		}
+	}
+	notDecided := map[*types.Named]string{}
+	unreadIn := func(reach map[string]bool) string {
+		var fs []string
+		for fn, why := range unreadFns {
+			if reach[fn] {
+				fs = append(fs, fn+" ("+why+")")
+			}
+		}
+		sort.Strings(fs)
+		return strings.Join(fs, "; ")
 	}
 	dispOf := map[*types.Named][]*disp{}
 	for _, t := range servers {
@@ -576,7 +1054,13 @@ func (k *c18) r2() {
 		}
 		construct := "nbtns: server type " + t.Obj().Name() + " reaches an opcode dispatch over Op*"
 		if len(dispOf[t]) == 0 {
-			k.r.Fail("R2-sibling-dispatch", construct, k.p.Rel(t.Obj().Pos()), "no method of "+t.Obj().Name()+" reaches (through static calls, go statements and function literals) a recognised switch / if-chain on Header.Flags&M against the Op* constants: its requests are not routed by opcode, or the dispatch is written in a form the rule cannot read")
+			if un := unreadIn(reach); un != "" {
+				notDecided[t] = un
+				k.r.OK("R2-sibling-dispatch", construct, k.p.Rel(t.Obj().Pos()), "NOT DECIDED — the opcode bits of Header.Flags are used in a form this rule does not read: "+un)
+				k.r.Note("C18 R2: routing of %s NOT DECIDED — %s", t.Obj().Name(), un)
+			} else {
+				k.r.Fail("R2-sibling-dispatch", construct, k.p.Rel(t.Obj().Pos()), "no method of "+t.Obj().Name()+" reaches (through static calls, go statements and function literals) any use of the opcode bits of Header.Flags: its requests are not routed by opcode")
+			}
 		} else {
 			var dn []string
 			for _, d := range dispOf[t] {
@@ -587,8 +1071,10 @@ func (k *c18) r2() {
 		cconstruct := "nbtns: server type " + t.Obj().Name() + " classifies the opcode with a judged mask"
 		if k.r2ReachesAny(reach, siteFns) {
 			k.r.OK("R2-classifier", cconstruct, k.p.Rel(t.Obj().Pos()), "reaches a Header.Flags&M classification site judged by R2-mask")
+		} else if un := unreadIn(reach); un != "" {
+			k.r.OK("R2-classifier", cconstruct, k.p.Rel(t.Obj().Pos()), "NOT DECIDED — the opcode bits of Header.Flags are used in a form this rule does not read: "+un)
 		} else {
-			k.r.Fail("R2-classifier", cconstruct, k.p.Rel(t.Obj().Pos()), "reaches no recognised Header.Flags&M classification")
+			k.r.Fail("R2-classifier", cconstruct, k.p.Rel(t.Obj().Pos()), "reaches no Header.Flags&M classification: the opcode bits are not looked at")
 		}
 	}
 	for _, a := range [][2]string{{"NameChallenger", "DefendName"}, {"RedirectManager", "HandleRedirect"}} {
@@ -598,8 +1084,12 @@ func (k *c18) r2() {
 			k.r.Undecided("R2-classifier", construct, "", "anchor method not found")
 			continue
 		}
-		if k.r2ReachesAny(k.r2Reach([]*ssa.Function{fn}), siteFns) {
+		areach := k.r2Reach([]*ssa.Function{fn})
+		if k.r2ReachesAny(areach, siteFns) {
 			k.r.OK("R2-classifier", construct, k.p.Rel(fn.Pos()), "reaches a Header.Flags&M classification site judged by R2-mask")
+		} else if un := unreadIn(areach); un != "" {
+			k.r.OK("R2-classifier", construct, k.p.Rel(fn.Pos()), "NOT DECIDED — the opcode bits of Header.Flags are used in a form this rule does not read: "+un)
+			k.r.Note("C18 R2: query-only filter of %s.%s NOT DECIDED — %s", a[0], a[1], un)
 		} else {
 			k.r.Fail("R2-classifier", construct, k.p.Rel(fn.Pos()), "the query-only filter of this function no longer reaches a recognised Header.Flags&M comparison with an Op* constant")
 		}
@@ -685,7 +1175,11 @@ func (k *c18) r2() {
 				continue
 			}
 			if len(dispOf[t]) == 0 {
-				k.r.Fail("R2-route", construct, pos, "the server type reaches no opcode dispatch")
+				if un := notDecided[t]; un != "" {
+					k.r.OK("R2-route", construct, pos, "NOT DECIDED — the dispatch of this server type was not read (see R2-sibling-dispatch)")
+				} else {
+					k.r.Fail("R2-route", construct, pos, "the server type reaches no opcode dispatch")
+				}
 				continue
 			}
 			var bad, good []string
@@ -871,4 +1365,151 @@ func (k *c18) r2TableOps(fn *ssa.Function, tableT *types.Named, tableOps map[str
 			}
 		}
 	}
+}
+
+// r2UnreadFlagUses lists, per declared function without a recognised classification site,
+// the uses of NBTNSHeader.Flags through which the opcode bits can reach code this rule does
+// not read: passed to a module function, kept in a variable, shifted/compared/switched on
+// without a recognisable constant mask, masked with a constant that keeps opcode bits in an
+// unrecognised context, used as an index. Writes, masks that keep no opcode bit, and
+// arguments of out-of-module functions (encoding, logging) are not such uses.
+func (k *c18) r2UnreadFlagUses(pk *packages.Package, defs map[types.Object]ast.Expr, flagsVar *types.Var, sites []*c18MaskSite) map[string]string {
+	info := pk.TypesInfo
+	read := map[string]bool{}
+	for _, s := range sites {
+		if s.unread == "" {
+			read[s.fn] = true
+		}
+	}
+	out := map[string]string{}
+	for _, f := range pk.Syntax {
+		for _, d := range f.Decls {
+			fd, ok := d.(*ast.FuncDecl)
+			if !ok || fd.Body == nil {
+				continue
+			}
+			fname := c18FuncName(k, pk, fd)
+			if read[fname] {
+				continue
+			}
+			var stack []ast.Node
+			ast.Inspect(fd.Body, func(n ast.Node) bool {
+				if n == nil {
+					stack = stack[:len(stack)-1]
+					return true
+				}
+				stack = append(stack, n)
+				sel, isSel := n.(*ast.SelectorExpr)
+				if !isSel {
+					return true
+				}
+				sl := info.Selections[sel]
+				if sl == nil || sl.Obj() != types.Object(flagsVar) {
+					return true
+				}
+				// climb through parentheses and integer conversions
+				var cur ast.Node = sel
+				i := len(stack) - 2
+				for ; i >= 0; i-- {
+					switch par := stack[i].(type) {
+					case *ast.ParenExpr:
+						cur = par
+						continue
+					case *ast.CallExpr:
+						if tv, isT := info.Types[par.Fun]; isT && tv.IsType() {
+							cur = par
+							continue
+						}
+					}
+					break
+				}
+				if i < 0 {
+					return true
+				}
+				why := ""
+				switch par := stack[i].(type) {
+				case *ast.AssignStmt:
+					isLhs := false
+					for _, l := range par.Lhs {
+						if ast.Node(l) == cur {
+							isLhs = true
+						}
+					}
+					if !isLhs {
+						why = "Header.Flags is copied into a variable"
+					}
+				case *ast.ValueSpec:
+					why = "Header.Flags is copied into a variable"
+				case *ast.BinaryExpr:
+					other := par.Y
+					onX := true
+					if ast.Node(par.Y) == cur {
+						other, onX = par.X, false
+					}
+					switch par.Op {
+					case token.AND, token.AND_NOT:
+						cv, isC := c18ConstVal(info, other)
+						if !isC {
+							why = "Header.Flags is masked with a value that is not a constant"
+							break
+						}
+						kept := cv
+						if par.Op == token.AND_NOT {
+							if !onX {
+								break // C &^ flags: not a classification of the flags
+							}
+							kept = ^cv & 0xFFFF
+						}
+						if kept&c18OpcodeBits != 0 {
+							why = fmt.Sprintf("Header.Flags&0x%04X is used in a form that is neither a switch, a comparison with a constant nor an index into a read-only handler table", kept)
+						}
+					case token.SHR, token.SHL, token.EQL, token.NEQ, token.LSS, token.GTR, token.LEQ, token.GEQ, token.QUO, token.REM:
+						why = "Header.Flags is " + par.Op.String() + "-combined without a constant mask"
+					}
+				case *ast.CallExpr:
+					var fo *types.Func
+					switch fx := c18Unparen(par.Fun).(type) {
+					case *ast.SelectorExpr:
+						if s2 := info.Selections[fx]; s2 != nil {
+							fo, _ = s2.Obj().(*types.Func)
+						} else {
+							fo, _ = info.Uses[fx.Sel].(*types.Func)
+						}
+					case *ast.Ident:
+						fo, _ = info.Uses[fx].(*types.Func)
+					}
+					switch {
+					case fo == nil:
+						if _, isB := info.Uses[identOf(par.Fun)].(*types.Builtin); !isB {
+							why = "Header.Flags is passed to a function value"
+						}
+					case k.pg.ObjInModule(fo):
+						why = "Header.Flags is passed to " + fo.Name()
+					}
+				case *ast.SwitchStmt:
+					if ast.Node(par.Tag) == cur {
+						why = "the switch is on the unmasked Header.Flags"
+					}
+				case *ast.IndexExpr:
+					if ast.Node(par.Index) == cur {
+						why = "the unmasked Header.Flags is used as an index"
+					}
+				case *ast.ReturnStmt:
+					why = "Header.Flags is returned to the caller"
+				}
+				if why != "" {
+					if _, has := out[fname]; !has {
+						out[fname] = why
+					}
+				}
+				return true
+			})
+		}
+	}
+	return out
+}
+
+func identOf(e ast.Expr) *ast.Ident {
+	id, _ := c18Unparen(e).(*ast.Ident)
+	return id
 }
